@@ -200,6 +200,23 @@ theorem C10_history (c : Cfg) (hsafe : SwapSafe c) (ops : List Op) :
       | okFilled => exact ih w' h1 (htmp' (by intro x e; cases e)) hrest
       | okUnfilled => exact ih w' h1 (htmp' (by intro x e; cases e)) hrest
 
+/-- every deallocate of every history names a block that is live, with the size it was allocated with and through the allocator that
+    allocated it -- never twice (the ghost flag `bad` is raised by `World.dealloc` exactly when the event's size or allocator differs from
+    the block's, or the block was already released).  In particular move assignment releases the target's old block through the
+    target's own allocator BEFORE it adopts the source's allocator. -/
+theorem C10_dealloc_matches_alloc (c : Cfg) (hsafe : SwapSafe c) (ops : List Op) (w : World) (h : Inv c w) (htmp : w.imgs tmpSlot = none)
+    (hok : RecreateOKRun c w ops) :
+    ∀ (b : Nat) (blk : Block), (run c w ops).heap[b]? = some blk → blk.bad = false ∧ blk.freed ≤ 1 :=
+  fun b blk hb => let r := (C10_history c hsafe ops w h htmp hok).blocks b blk hb; ⟨r.1, r.2.2.2.1⟩
+
+/-- the order inside move_assign(propagate) matters: a model variant that adopts the allocator first releases the old block through
+    the source's allocator (this is what the ghost flag detects) -/
+theorem C10_dealloc_flag_detects_wrong_allocator :
+    let w0 : World := { heap := [{ size := 18, tag := 1 }], log := [Event.alloc 0 18 1] }
+    ((w0.dealloc 0 18 2).heap[0]?).map (·.bad) = some true ∧ ((w0.dealloc 0 18 1).heap[0]?).map (·.bad) = some false
+    ∧ ((w0.dealloc 0 17 1).heap[0]?).map (·.bad) = some true ∧ (((w0.dealloc 0 18 1).dealloc 0 18 1).heap[0]?).map (·.bad) = some true := by
+  decide
+
 /-- the static side condition for images of trivially constructible elements: sizes do not wrap to 0 -/
 def TrivialOK (c : Cfg) : Op → Prop
   | .recreate s W H al _ _ _ => ∀ o, c.orgOf s = some o → o.nontrivial = false ∧ (o.needed al W H = 0 → W * H = 0)
